@@ -70,7 +70,7 @@ def gen_case(rng, tier="quick"):
     elif method == "mean_field":
         case["n"] = n = rng.randrange(3, 7)
         m["dkmax"] = _pick(rng, [None, 1, 2])
-        m["nsys"] = _pick(rng, [1, 1, 2])
+        m["nsys"] = _pick(rng, [1, 2, 2])
         m["unique"] = False
         m["subdiv"] = None
         m["kappa"] = _r(rng, 0.1, 0.5)
@@ -83,7 +83,10 @@ def gen_case(rng, tier="quick"):
                 ops.append(["get"])
             else:
                 which = _pick(rng, ["field_eom", "field_eom", "hamiltonian",
-                                    "gamma"])
+                                    "gamma", "lindblad"])
+                if which != "field_eom" and m["nsys"] > 1 and \
+                        rng.random() < 0.6:
+                    which += "1"
                 if which == "field_eom":
                     ops.append(["arm_fault", which, "call",
                                 rng.randrange(1, 3 * n + 1)])
@@ -233,10 +236,17 @@ def build_mean_field(m, plan):
     def eom(t, states, a):
         expect = sum(np.matmul(o["-"], s).trace() for s in states)
         return -(1j * m["w"] + m["kappa"]) * a - 1j * m["g"] * expect
+    # every system has its own callables (and fault names): a failure in the
+    # second system's Hamiltonian is a different fault point from one in the
+    # first's
+    def name(base, i):
+        return base if i == 0 else "%s%d" % (base, i)
     systems = [oqupy.TimeDependentSystemWithField(
-        models.faulty("hamiltonian", ham, plan, so),
-        gammas=[models.faulty("gamma", gam, plan, so)],
-        lindblad_operators=[lop]) for _ in range(m["nsys"])]
+        models.faulty(name("hamiltonian", i), ham, plan, so),
+        gammas=[models.faulty(name("gamma", i), gam, plan, so)],
+        lindblad_operators=[models.faulty(name("lindblad", i), lop, plan,
+                                          so)])
+        for i in range(m["nsys"])]
     mfs = oqupy.MeanFieldSystem(
         systems, field_eom=models.faulty("field_eom", eom, plan, so))
     pars = oqupy.TempoParameters(dt=dt, epsrel=m["epsrel"], dkmax=m["dkmax"],
